@@ -11,12 +11,13 @@
    option position), [steps] a finite sequence of them.
    [Inv s] is 0 <= wi < len wl.  Operation classes:
    is_nav  = history_backward/forward n, go_to_history, auto_up/auto_down n,
-             end-of-history, cursor moves, validate;
+             end-of-history, cursor moves, validate, the landing of an
+             incremental search (apply_search: index and cursor);
    is_edit = insert_text, delete_before_cursor, delete, text setter;
    is_pop  = one / all remaining asynchronous population steps. *)
 From Coq Require Import ZArith List Bool.
 From PTK Require Import Lib.Sx Lib.Py Model.Document Model.BufferEdit Model.C14_HistoryNav
-  Proofs.C14_Facts Proofs.C14_Nav Proofs.C14_Accept.
+  Proofs.C14_Facts Proofs.C14_Nav Proofs.C14_Accept Proofs.C14_Mixed Proofs.C14_Sessions.
 Import ListNotations.
 Open Scope Z_scope.
 
@@ -41,6 +42,23 @@ Theorem C14_edits_kept : forall c s o,
   (forall j, j <> Z.to_nat (wi s) -> nth_error (wl s') j = nth_error (wl s) j).
 Proof. exact edit_step_spec. Qed.
 Print Assumptions C14_edits_kept.
+
+(* ONE statement over arbitrary interleavings of navigation, edits and
+   asynchronous population steps.  Entries are addressed from the end of the
+   working lines (0 = the new line, 1 = newest history entry, ...; population
+   prepends, so these positions are stable).  [touched c s ops] lists the
+   positions that were displayed while an edit ran.  Every other entry is the
+   same before and after, no entry disappears, the stored history is
+   unchanged: edits to recalled entries are kept while browsing and while the
+   history is still loading, and nothing else ever changes an entry. *)
+Theorem C14_edits_kept_mixed : forall c ops s,
+  Inv s -> Forall wf_op ops -> Forall browse_op ops ->
+  (length (wl s) <= length (wl (steps c s ops)))%nat /\
+  sto (store (steps c s ops)) = sto (store s) /\
+  forall r, (r < length (wl s))%nat -> ~ In r (touched c s ops) ->
+            rnth (wl (steps c s ops)) r = rnth (wl s) r.
+Proof. exact browse_steps. Qed.
+Print Assumptions C14_edits_kept_mixed.
 
 (* 0 <= working_index < len(working_lines) in every reachable state (the
    go_to_history index must be non-negative). *)
@@ -67,6 +85,12 @@ Theorem C14_back_forth_zero_pinned_refuted :
     wi (history_forward_pinned c (history_backward_pinned c s 0) 0) <> wi s.
 Proof. exact back_forth_zero_pinned_refuted. Qed.
 Print Assumptions C14_back_forth_zero_pinned_refuted.
+
+(* With something selected, Up/Down (auto_up/auto_down) never browse. *)
+Theorem C14_selection_no_browse : forall c s n g,
+  sel s = true -> wi (auto_up c s n g) = wi s /\ wi (auto_down c s n g) = wi s.
+Proof. exact selection_no_browse. Qed.
+Print Assumptions C14_selection_no_browse.
 
 (* With prefix search every entry reached by an up/down step (any count)
    starts with the prefix, which is the captured search text or, at the first
@@ -182,6 +206,30 @@ Theorem C14_reset_clean_interleaved : forall c s t cp ops,
   tfin s' = true -> wl s' = sto (store s) ++ [t].
 Proof. exact reset_clean_interleaved. Qed.
 Print Assumptions C14_reset_clean_interleaved.
+
+(* A new session on the same storage (new History object: nothing loaded yet)
+   starts from the stored history followed by an empty line. *)
+Theorem C14_new_session_clean : forall s,
+  Coh (store s) ->
+  let s' := pop_all (load_start (reopen s)) in
+  wl s' = sto (store s) ++ [[]] /\ wi s' = len (sto (store s)) /\ text s' = [] /\
+  sto (store s') = sto (store s) /\ hst s' = None.
+Proof. exact new_session_clean. Qed.
+Print Assumptions C14_new_session_clean.
+
+(* Accept in one session, recall in the next: the entries of the next session
+   are the old stored history, the accepted text, the new line; one step back
+   displays exactly the accepted text. *)
+Theorem C14_recall_next_session : forall c s,
+  Coh (store s) -> verdict_ok c s -> stored_skip (sto (store s)) (text s) = false ->
+  let s1 := fst (validate_and_handle c s) in
+  let s2 := pop_all (load_start (reopen s1)) in
+  ehs s = false ->
+  wl s2 = sto (store s) ++ [text s] ++ [[]] /\
+  text (history_backward c s2 1) = text s /\
+  wl (history_backward c s2 1) = wl s2.
+Proof. exact recall_next_session. Qed.
+Print Assumptions C14_recall_next_session.
 
 (* A population step never changes which entry is displayed, nor the cursor,
    search text, validation state; it only prepends entries and shifts the
